@@ -538,7 +538,7 @@ def run(ctx: Ctx) -> None:
     prog = ctx.prog
     ctx.rule('C01.R1', 'opcode table: every operator dunder of Expression returns the class of the Python data-model table with (self, other) for the '
              'direct and (other, self) for the reflected form, after the operand guard is_numeric(other) or isinstance(other, Expression)')
-    ctx.rule('C01.R2', 'operand roles: every constructor parameter annotated ExpressionOrNumeric passes through validate_and_convert before it is stored; '
+    ctx.rule('C01.R2', 'operand roles: every constructor parameter annotated ExpressionOrNumeric, or stored among the children, passes through validate_and_convert before it is stored; '
              'the children list is built from the constructor parameters in the order the reader expects')
     ctx.rule('C01.R3', 'record layout writer <-> reader: the record template of the resolved get_signature of every serialisable class equals the '
              'grammar entry of bioFormula.cc::processFormula for its tag; every concrete Expression subclass has a tag or is in the frozen non-serialised list')
@@ -681,9 +681,10 @@ def run(ctx: Ctx) -> None:
             a = init.node.args
             for i, p in enumerate(a.args[1:]):
                 ann = unparse(p.annotation) if p.annotation is not None else ''
-                if 'ExpressionOrNumeric' not in ann:
-                    continue
                 role = f'@{i}'
+                # an operand is a parameter annotated ExpressionOrNumeric or one that ends up among the children
+                if 'ExpressionOrNumeric' not in ann and re.search(rf'@{i}(?![#\d])', ar.children_template() or '') is None:
+                    continue
                 conv = any(ar.converted.get(attr) for attr, rs in ar.roles.items() if role in rs) or _children_converted(prog, c, init, p.arg)
                 ctx.add('C01.R2', f'{c.name}.__init__({p.arg})', conv, init,
                         f'parameter {p.arg} is converted with validate_and_convert before it is stored' if conv else f'parameter {p.arg}: ExpressionOrNumeric stored without validate_and_convert (a Python number would reach the engine as a non-node)',
